@@ -6,26 +6,71 @@ from ..gen import progs
 ASSUMPTIONS = ["the real snarkjsbackend.prove() is run in a scratch directory; the files are decoded by harness/r1csread.py, written "
                "from the iden3 format description and sharing no code with the writer or the Lean model; snarkjs itself is absent",
                "the Lean encoder is fed the trace recorded from the real run (dict order, unreduced coefficients) and must reproduce "
-               "the bytes of both files"]
+               "the bytes of both files",
+               "field configurations: `snarkjsbackend.snarkjsp` set to primes of 1, 3, 8, 16, 24, 31 and 32 bytes (97, 65537, 2^64-2^32+1, "
+               "2^127-1, 2^192-237, 2^248-237, bn128, bls12-381); the pinned writer uses 32-byte elements for every prime (model: "
+               "Model/Snarkjs.lean, theorems for 0 < p < 2^256), the decoder takes the element width n8 from each file's header as the "
+               "iden3 format says and accepts any width that is a multiple of 8 and holds the prime; primes of 2^256 and above are "
+               "outside the format the writer implements (the 32-byte modulus field would be truncated) and are not driven",
+               "directly installed traces go through the backend's own entry points pubval()/privval()/add_constraint(); staged traces "
+               "(2-4 exports of one growing trace in one process and one directory: stages that add wires and constraints, only wires, "
+               "only constraints, or nothing) are judged after every export; a file that is absent after prove(), or byte-identical to "
+               "the previous export although the trace grew, is reported (files-not-written / stale-files)"]
 PARTIAL = []
 P = common.BN128
+GOLDILOCKS = 2 ** 64 - 2 ** 32 + 1
+FIELDS = [97, 65537, GOLDILOCKS, 2 ** 127 - 1, 2 ** 192 - 237, 2 ** 248 - 237, common.BLS381, P]     # 1, 3, 8, 16, 24, 31, 32, 32 bytes
+PROGRAM_FIELDS = [P, P, P, P, common.BLS381, 2 ** 127 - 1, 2 ** 248 - 237]                            # gadgets need bitlength << field size
 
 
-def direct_traces(rnd, n):
-    """traces installed directly into the backend lists: extreme witness values and coefficients"""
+def rand_val(rnd, p):
+    return rnd.choice([0, 1, -1, p - 1, p, p + 1, 2 * p, -p, 2 ** 256 - 1, 2 ** 256, 2 ** 300 + 7, -(2 ** 260),
+                       rnd.randrange(p), -rnd.randrange(p), rnd.randrange(2 ** 270)])
+
+
+def rand_lc(rnd, p, npub, npriv):
+    keys = list(range(-npriv, npub + 1)); rnd.shuffle(keys)
+    keys = keys[:rnd.randrange(0, len(keys) + 1)]
+    return ",".join(f"{k}:{rnd.choice([0, 1, -1, 2, p, p - 1, -p - 3, rnd.randrange(-2 ** 258, 2 ** 258)])}" for k in keys)
+
+
+def rand_cons(rnd, p, npub, npriv, n):
+    return ";".join("#".join(rand_lc(rnd, p, npub, npriv) for _ in range(3)) for _ in range(n))
+
+
+def direct_traces(rnd, n, p=P, tag="d"):
+    """traces installed through the backend's entry points: extreme witness values and coefficients"""
     out = []
     for i in range(n):
         npub = rnd.randrange(0, 4); npriv = rnd.randrange(0, 5)
-        def val():
-            return rnd.choice([0, 1, -1, P - 1, P, P + 1, 2 * P, -P, 2 ** 256 - 1, 2 ** 256, 2 ** 300 + 7, -(2 ** 260),
-                               rnd.randrange(P), -rnd.randrange(P), rnd.randrange(2 ** 270)])
-        pubs = [val() for _ in range(npub)]; privs = [val() for _ in range(npriv)]
-        def lc():
-            keys = list(range(-npriv, npub + 1)); rnd.shuffle(keys)
-            keys = keys[:rnd.randrange(0, len(keys) + 1)]
-            return ",".join(f"{k}:{rnd.choice([0, 1, -1, 2, P, P - 1, -P - 3, rnd.randrange(-2 ** 258, 2 ** 258)])}" for k in keys)
-        cons = ";".join("#".join(lc() for _ in range(3)) for _ in range(rnd.randrange(0, 4)))
-        out.append(f"JT|d{i}|{P}|{','.join(map(str, pubs))}|{','.join(map(str, privs))}|{cons}")
+        pubs = [rand_val(rnd, p) for _ in range(npub)]; privs = [rand_val(rnd, p) for _ in range(npriv)]
+        cons = rand_cons(rnd, p, npub, npriv, rnd.randrange(0, 4))
+        out.append(f"JT|{tag}{i}|{p}|{','.join(map(str, pubs))}|{','.join(map(str, privs))}|{cons}")
+    return out
+
+
+STAGE_KINDS = ["full", "full", "wires-only", "wires-only", "constraints-only", "nothing"]
+
+
+def staged_traces(rnd, n, p=P, tag="s"):
+    """several exports of one growing trace in one process: stage 1 always has wires and constraints, later stages add wires
+    and constraints / only wires / only constraints / nothing; returns (line, [stage kinds])"""
+    import json
+    out = []
+    for i in range(n):
+        npub = npriv = 0; stages = []; kinds = []
+        for k in range(rnd.randrange(2, 5)):
+            kind = "full" if k == 0 else rnd.choice(STAGE_KINDS)
+            st = {"pub": [], "priv": [], "cons": ""}
+            if kind in ("full", "wires-only"):
+                a = rnd.randrange(0, 3); b = rnd.randrange(0, 3)
+                if a + b == 0: a = 1
+                st["pub"] = [rand_val(rnd, p) for _ in range(a)]; st["priv"] = [rand_val(rnd, p) for _ in range(b)]
+                npub += a; npriv += b
+            if kind in ("full", "constraints-only"):
+                st["cons"] = rand_cons(rnd, p, npub, npriv, rnd.randrange(1, 4))
+            stages.append(st); kinds.append(kind)
+        out.append((f"JS|{tag}{i}|{p}|" + json.dumps(stages), kinds))
     return out
 
 
@@ -41,63 +86,116 @@ def value_class(v, p):
     return "neg" if v < 0 else "wide" if v >= 2 ** 256 else "ge-p" if v >= p else "canonical"
 
 
+def byte_class(p):
+    return f"{(p.bit_length() + 7) // 8}-byte-prime"
+
+
+def judge(ex, line, src, status, p, trace_fields, files, model_line, stage=None, prev_files=None, prev_trace=None):
+    """one export: bytes vs the model's encoder, then the independent decoder's clauses; returns the list of (clause, message)"""
+    pubs, privs, cons = parse_trace(trace_fields)
+    wt_hex, r1_hex = files.get("witness.wtns"), files.get("circuit.r1cs")
+    mf = model_line.split("|")
+    if wt_hex is None or r1_hex is None or len(mf) < 3 or mf[1] != wt_hex or mf[2] != r1_hex:
+        which = "witness.wtns" if wt_hex is None or len(mf) < 3 or mf[1] != wt_hex else "circuit.r1cs"
+        ex.disagreements.append({"case": line[:3000], "stage": stage, "what": f"bytes of {which} differ from the model's encoder"})
+    else:
+        ex.traces_validated += 1
+    if "!raised" in files:
+        return [("export-raised", "prove() raised " + bytes.fromhex(files["!raised"]).decode(errors="replace")[:200])]
+    missing = [n for n, h in (("witness.wtns", wt_hex), ("circuit.r1cs", r1_hex)) if h is None]
+    if missing:
+        return [("files-not-written", f"after prove() there is no {' / '.join(missing)} in the working directory")]
+    try:
+        wt = r1csread.read_wtns(bytes.fromhex(wt_hex)); r1 = r1csread.read_r1cs(bytes.fromhex(r1_hex))
+        bad = r1csread.check(wt, r1, p, pubs, privs, cons)
+    except r1csread.FormatError as e:
+        bad = [("malformed", str(e))]
+    if src == "program" and status == "ok" and ",ign=0|" in line and "set ign" not in line and not bad:
+        # with C01: the decoded witness of a completed run satisfies the decoded constraints
+        def ev(l, wv): return sum(c * wv[i] for i, c in l) % p
+        for ci, dc in enumerate(r1["constraints"]):
+            if (ev(dc[0], wt["values"]) * ev(dc[1], wt["values"]) - ev(dc[2], wt["values"])) % p != 0:
+                bad.append(("decoded-unsatisfied", f"constraint {ci} of circuit.r1cs is not satisfied by witness.wtns"))
+                break
+    if bad and prev_files is not None and prev_trace != trace_fields[3:6] and \
+            (files.get("witness.wtns"), files.get("circuit.r1cs")) == (prev_files.get("witness.wtns"), prev_files.get("circuit.r1cs")):
+        bad = [("stale-files", "the trace grew since the previous export, prove() was called again, and both files are byte-identical "
+                "to the previous export (" + bad[0][0] + ": " + bad[0][1] + ")")]
+    return bad
+
+
 def explore(ctx, extended=False, focus=None):
+    import json
     ex = Exploration()
-    ex.rule = ("(a) programs over the public API traced on the real snarkjs backend, then prove(); (b) traces installed directly with "
-               "witness values / coefficients from {0, +-1, p-1, p, p+1, 2p, -p, 2^256-1, 2^256, >2^256, random}, empty and "
-               "zero-coefficient linear combinations; for each: bytes of both files vs the Lean encoder run on the recorded trace, "
-               "and the independent decoder's checks (well-formedness, canonical elements, decode = trace, satisfaction transfer); "
-               "distinct = distinct (source, #pub, #priv, #constraints, witness value classes)")
+    ex.rule = ("(a) programs over the public API traced on the real snarkjs backend, then prove(); (b) traces installed through "
+               "pubval/privval/add_constraint with witness values / coefficients from {0, +-1, p-1, p, p+1, 2p, -p, 2^256-1, 2^256, "
+               ">2^256, random}, empty and zero-coefficient linear combinations; (c) staged traces: 2-4 exports of one growing trace in "
+               "one process (stages adding wires+constraints / wires only / constraints only / nothing); (b), (c) for primes of 1, 3, 8, "
+               "16, 24, 31 and 32 bytes, (a) for 16-, 31- and 32-byte primes; for each export: bytes of both files vs the Lean encoder "
+               "run on the recorded trace, and the independent decoder's checks (well-formedness with the element width taken from the "
+               "header, canonical elements, decode = trace, satisfaction transfer); distinct = distinct (source, prime width, #pub, "
+               "#priv, #constraints, witness value classes)")
     n = ctx.n(480, 12000) * (3 if extended else 1)
-    cases = progs.generate(ctx.rnd, n, "c10_", mix=[(4, progs.op_case), (2, progs.chain_case), (1, progs.method_case),
-                                                    (1, progs.array_case), (1, progs.guarded_case)])
-    lines = [c.line() for c in cases] + direct_traces(ctx.rnd, ctx.n(480, 12000) * (3 if extended else 1))
+    mix = [(4, progs.op_case), (2, progs.chain_case), (1, progs.method_case), (1, progs.array_case), (1, progs.guarded_case)]
+    cases = []
+    for k, fp in enumerate(PROGRAM_FIELDS):
+        cases += progs.generate(ctx.rnd, n // len(PROGRAM_FIELDS), f"c10_{k}_", mix=mix, p=fp)
+    lines = [c.line() for c in cases]
+    staged = []
+    for k, fp in enumerate(FIELDS):
+        lines += direct_traces(ctx.rnd, n // len(FIELDS), p=fp, tag=f"d{k}_")
+        staged += staged_traces(ctx.rnd, max(8, n // (4 * len(FIELDS))), p=fp, tag=f"s{k}_")
+    lines += [l for l, _ in staged]
+    kinds_of = {l.split("|")[1]: k for l, k in staged}
     w = common.Worker("snarkjs", "worker_files.py")
     try:
         outs = w.run(lines)
     finally:
         w.close()
     jl = []
-    recs = []
+    recs = []       # (line, src, status, p, trace fields, files, stage, prev_files, prev_trace, stage kind)
     for line, o in zip(lines, outs):
         f = o.split("|")
-        if f[1] == "harness-error":
+        if len(f) < 4 or f[1] == "harness-error":
             raise common.Infra(o[:600])
         p = int(f[2])
-        files = dict(x.split("=", 1) for x in f[6:])
-        recs.append((line, f, p, files))
+        if line.startswith("JS|"):
+            prev_files = prev_trace = None
+            for k, st in enumerate(json.loads(o.split("|", 3)[3])):
+                tf = [f[0], f[1], f[2]] + st["trace"].split("|")
+                recs.append((line, "staged", f[1], p, tf, st["files"], k + 1, prev_files, prev_trace, kinds_of[f[0]][k]))
+                jl.append(f"J|{f[0]}_{k}|{p}|{st['trace']}")
+                prev_files, prev_trace = st["files"], tf[3:6]
+            continue
+        files = dict(x.split("=", 1) for x in f[6:] if "=" in x)
+        recs.append((line, "direct" if line.startswith("JT") else "program", f[1], p, f, files, None, None, None, None))
         jl.append(f"J|{f[0]}|{p}|{f[3]}|{f[4]}|{f[5]}")
     ml = common.lean_driver(jl)
-    for (line, f, p, files), m in zip(recs, ml):
+    last_program_line = None
+    for (line, src, status, p, tf, files, stage, prev_files, prev_trace, skind), m in zip(recs, ml):
         ex.evaluations += 1
-        pubs, privs, cons = parse_trace(f)
+        pubs, privs, cons = parse_trace(tf)
         classes = tuple(sorted({value_class(v, p) for v in pubs + privs}))
-        src = "direct" if line.startswith("JT") else "program"
-        ex.distinct.add((src, len(pubs), len(privs), len(cons), classes))
-        ex.count(f"source:{src}")
+        ex.distinct.add((src, byte_class(p), len(pubs), len(privs), len(cons), classes))
+        ex.count(f"source:{src}"); ex.count(f"field:{byte_class(p)}")
+        if stage:
+            ex.count(f"stage:{'first' if stage == 1 else skind}")
         for c in classes:
             ex.count(f"witness-class:{c}")
-        mf = m.split("|")
-        wt_hex, r1_hex = files.get("witness.wtns", ""), files.get("circuit.r1cs", "")
-        if len(mf) < 3 or mf[1] != wt_hex or mf[2] != r1_hex:
-            which = "witness.wtns" if len(mf) < 3 or mf[1] != wt_hex else "circuit.r1cs"
-            ex.disagreements.append({"case": line[:3000], "what": f"bytes of {which} differ from the model's encoder"})
-        else:
-            ex.traces_validated += 1
-        try:
-            wt = r1csread.read_wtns(bytes.fromhex(wt_hex)); r1 = r1csread.read_r1cs(bytes.fromhex(r1_hex))
-            bad = r1csread.check(wt, r1, p, pubs, privs, cons)
-        except r1csread.FormatError as e:
-            bad = [("malformed", str(e))]
-        if src == "program" and f[1] == "ok" and ",ign=0|" in line and "set ign" not in line and not bad:
-            # with C01: the decoded witness of a completed run satisfies the decoded constraints
-            def ev(l, wv): return sum(c * wv[i] for i, c in l) % p
-            for ci, dc in enumerate(r1["constraints"]):
-                if (ev(dc[0], wt["values"]) * ev(dc[1], wt["values"]) - ev(dc[2], wt["values"])) % p != 0:
-                    bad.append(("decoded-unsatisfied", f"constraint {ci} of circuit.r1cs is not satisfied by witness.wtns"))
-                    break
+        bad = judge(ex, line, src, status, p, tf, files, m, stage, prev_files, prev_trace)
         for clause, msg in bad:
-            ex.violations.append(Violation({"clause": clause}, f"{clause}: {msg}", {"line": line[:5000]}))
+            sig = {"clause": clause, "field": "32-byte-prime" if byte_class(p) == "32-byte-prime" else "narrower-prime"}
+            if stage:
+                sig["export"] = "first" if stage == 1 else "repeated:" + skind
+            payload = {"line": line[:20000]}
+            if stage:
+                payload["stage"] = stage
+            if clause in ("files-not-written", "export-raised") and src == "program" and last_program_line:
+                payload["previous_line_in_the_same_process"] = last_program_line[:5000]
+            ex.violations.append(Violation(sig, f"{clause}: {msg}" + (f" [export #{stage} of a staged trace, prime of {byte_class(p)[:-6]}]" if stage else
+                                                                      f" [prime of {byte_class(p)[:-6]}]"), payload))
+        if src == "program":
+            last_program_line = line
         if len(ex.samples) < 5 and cons:
             ex.samples.append(line[:600])
     return ex
@@ -106,7 +204,9 @@ def explore(ctx, extended=False, focus=None):
 def replay(ctx, payload):
     w = common.Worker("snarkjs", "worker_files.py")
     try:
-        print(w.run([payload["replay"]["line"]])[0][:3000])
+        r = payload["replay"]
+        for l in ([r["previous_line_in_the_same_process"]] if "previous_line_in_the_same_process" in r else []) + [r["line"]]:
+            print(w.run([l])[0][:3000])
     finally:
         w.close()
     return 0
